@@ -16,6 +16,12 @@ The generated definitions are used in two ways:
     equivalent rewrite of the same arithmetic still proves.
 Floats: `math.ceil(a / b)`, `math.floor(a / b)` and `int(a / b)` are translated to exact integer
 division (trusted base: operands below 2^53 and non-negative, divisor positive).
+
+Kernel kinds besides the expression kernels: `regex`, `strings`, and `loop` (whole functions translated
+statement by statement; the Python subset — file loops, loops over lists of integers, loops over
+(file, size) pairs, `list(range())`, `remove`, `in`, `xs[i]`, `set()/add/sorted`, comparison with
+`[file]`, literal defaults, results stored in an attribute, message strings — is listed in the comment
+block above `_LOOP_LEAN_TYPES`).
 """
 import ast
 import os
@@ -219,6 +225,27 @@ KERNELS = [
     dict(name='byteRangeOfFileFn', kind='loop', file='torf/_stream.py', func='TorrentFileStream.get_byte_range_of_file',
          params=[('file', 'File'), ('file_size', 'Int')], atoms={'file.size': 'file_size'},
          calls={'self.get_file_position': 'filePositionFn'}, ret='IntPair'),
+    # --- loop kernels, second batch (C11, C02): lists of integers (`list(range(…))`, `remove`, `in`, `xs[i]`, loops over
+    #     them), a set that is added to and sorted, comparison with `[file]`, arguments left to literal defaults;
+    #     `VerifyContentError.__init__`: a loop over (file, size) pairs whose result is the value stored in `self._files`
+    dict(name='pieceIndexesOfFileFn', kind='loop', file='torf/_stream.py',
+         func='TorrentFileStream.get_piece_indexes_of_file',
+         params=[('file', 'File'), ('exclusive', 'Bool'), ('file_size', 'Int'), ('piece_size', 'Int')],
+         atoms={'file.size': 'file_size', 'self._torrent.piece_size': 'piece_size'},
+         calls={'self.get_file_position': 'filePositionFn', 'self.get_files_at_piece_index': 'filesAtPieceIndexFn'},
+         ret='Ints'),
+    dict(name='absolutePieceIndexesFn', kind='loop', file='torf/_stream.py',
+         func='TorrentFileStream.get_absolute_piece_indexes',
+         params=[('file', 'File'), ('relative_piece_indexes', 'Ints'), ('file_size', 'Int'), ('piece_size', 'Int')],
+         atoms={'file.size': 'file_size', 'self._torrent.piece_size': 'piece_size'},
+         calls={'self.get_piece_indexes_of_file': 'pieceIndexesOfFileFn'}, ret='Ints'),
+    dict(name='relativePieceIndexesFn', kind='loop', file='torf/_stream.py',
+         func='TorrentFileStream.get_relative_piece_indexes',
+         params=[('relative_piece_indexes', 'Ints'), ('file_size', 'Int'), ('piece_size', 'Int')], ignore=('file',),
+         atoms={'file.size': 'file_size', 'self._torrent.piece_size': 'piece_size'}, ret='Ints'),
+    dict(name='corruptFilesFn', kind='loop', file='torf/_errors.py', func='VerifyContentError.__init__',
+         params=[('piece_index', 'Int'), ('piece_size', 'Int')], ignore=('filepath',), files='file_sizes', pairs=True,
+         result='self._files', ret='Files'),
 ]
 
 
@@ -645,9 +672,44 @@ def translate_strings(repo, k):
 # assigned inside BODY but not before the loop are local to one iteration (reading one that is not assigned on the
 # current path is refused).  Everything else — other statements, calls, attribute reads, nested loops, `for … else`,
 # tuple targets, aliasing of lists — raises CannotTranslate and the committed snapshot of the kernel is kept.
+#
+# Second batch (lists of integers, pairs, functions whose result is stored in an attribute); types: `Ints` = a Python
+# list of integers (`List Int`), `IntSet` = a set of integers that is only added to (`List Int`: the added values):
+#
+#     xs = list(range(a, b)) / list(range(b))        let xs : List Int := Torf.Loop.pyRange a b
+#     xs = [e1, e2] / ys = list(xs) / tuple(xs)      list display of integers or of files; a copy has the same elements; a
+#                                                    tuple of files has its own type (`FilesT`: readable, returnable, but no
+#                                                    append / remove / `==` with a list)
+#     xs.append(e) / xs.remove(e)   (xs : Ints)      xs ++ [e] / if xs.contains e then let xs := xs.erase e; ⟦rest⟧
+#                                                                else .raised "ValueError"     (first occurrence)
+#     e in xs / e not in xs / len(xs) / if xs:       List.contains xs e / … / List.length / !xs.isEmpty
+#     x = xs[e]                     (xs : Ints)      Out.bind (Out.ofOption (Torf.Loop.getIdx xs e) "IndexError") fun x => ⟦rest⟧
+#     fs == [file] / fs != [file] / xs == ys         decide (fs = [file]) …  — only between *lists*: a local that may hold
+#                                                    a tuple (an argument; assigned a tuple display / tuple(…)) is refused
+#     s = set() / s.add(e) / sorted(s)               let s : List Int := [] / s ++ [e] / Torf.Loop.sortedSet s
+#     for x in xs: BODY             (xs : Ints)      <name>.loop <unchanged locals, alphabetically> : List Int →
+#                                                    <assigned locals, alphabetically> → Out _ ; x is a plain local of the
+#                                                    iteration (BODY may re-assign it); xs itself must not be changed
+#     self.other(a)   (b left to its default)        the literal default (True / False / integer) written in the signature
+#                                                    of `other` is passed
+#   kernels with `pairs=True, files='<argument>'` (the argument is a list of (file, size) pairs; it becomes `sizes`):
+#     for a, b in <pairs>: BODY                      as `for file in files`, `a` the index of the pair, `b` its size; the
+#                                                    names may shadow an opaque argument (after the loop they are opaque)
+#     len(<pairs>) / <pairs>[c][0]  (c ≥ 0 literal)  List.length sizes / the file c behind `if c < length … else IndexError`
+#   kernels with `result='self.<attr>'` (an __init__: nothing is returned):
+#     self.<attr> = <value>                          .ret <value> — the one store to that attribute (checked) ends the
+#                                                    translation; what follows it is not part of the kernel
+#     self.<other> = <name or constant>              skipped if `self.<other>` is never read in the function
+#     msg = f'…{e}…' / msg += '…' + ', '.join(str(f) for f in xs)       *message expressions* (an f-string / string constant
+#                                                    / `+` of such) are not translated: the name becomes opaque; only the
+#                                                    bounds checks of the subscripts `xs[c]` in them are (`IndexError`);
+#                                                    everything in them must be on a white list (names, constants, + - *,
+#                                                    str() / repr(), '<sep>'.join(<generator over a list local>), xs[c]);
+#                                                    trusted: str() / format() of a value has no effect and does not raise
 # =====================================================================================================================
 
-_LOOP_LEAN_TYPES = {'Int': 'Int', 'Bool': 'Bool', 'File': 'Nat', 'Files': 'List Nat', 'IntPair': 'Int × Int'}
+_LOOP_LEAN_TYPES = {'Int': 'Int', 'Bool': 'Bool', 'File': 'Nat', 'Files': 'List Nat', 'IntPair': 'Int × Int',
+                    'Ints': 'List Int', 'IntSet': 'List Int', 'FilesT': 'List Nat'}
 _LOOP_RESERVED = set('''
     sizes min max decide some none true false Int Nat List Bool String Option Prod fun let if then else match with do
     at from end open def theorem by have show in where instance structure inductive class namespace section import
@@ -666,9 +728,27 @@ def _loop_ident(name):
 class _LoopExpr(Tr):
     """expressions of a loop kernel: the arithmetic / comparisons of `Tr`, sums over file sizes, truth of a list"""
 
-    def __init__(self, env, atoms, files_src):
+    def __init__(self, env, atoms, files_src, fileref=None, maybe_tuple=()):
         super().__init__([(n, t) for n, t in env.items()], atoms)
         self.files_src = files_src
+        self.fileref = fileref or (lambda n: None)
+        self.maybe_tuple = maybe_tuple
+
+    def list_(self, n):
+        """(Lean term, 'Files' | 'Ints') if `n` is a *list* of files / of integers that can be compared with `==`, else
+        None: a local of that type that is known to be a list (not an argument, never assigned a tuple), or a list
+        display of files (`[file]`) or of integers.  (Python: a list never equals a tuple.)"""
+        if isinstance(n, ast.Name) and self.types.get(n.id) in ('Files', 'Ints') and self.atom(n) is None:
+            if n.id in self.maybe_tuple:
+                raise CannotTranslate(f'{n.id} may be a tuple: comparison refused')
+            return n.id, self.types[n.id]
+        if isinstance(n, ast.List) and n.elts:
+            refs = [self.fileref(e) for e in n.elts]
+            if all(r is not None for r in refs):
+                return '[' + ', '.join(refs) + ']', 'Files'
+            if not any(r is not None for r in refs):
+                return '[' + ', '.join(self.int_(e) for e in n.elts) + ']', 'Ints'
+        return None
 
     def int_(self, n):
         if isinstance(n, ast.Call) and ast.unparse(n.func) == 'sum':
@@ -687,13 +767,32 @@ class _LoopExpr(Tr):
                         return f'(List.sum (Torf.Loop.sliceTo sizes {self.int_(it.slice.upper)}))'
             raise CannotTranslate(f'sum expression {ast.unparse(n)}')
         if (isinstance(n, ast.Call) and ast.unparse(n.func) == 'len' and len(n.args) == 1 and not n.keywords
-                and isinstance(n.args[0], ast.Name) and self.types.get(n.args[0].id) == 'Files'):
+                and isinstance(n.args[0], ast.Name) and self.types.get(n.args[0].id) in ('Files', 'Ints', 'FilesT')):
             return f'((List.length {n.args[0].id} : Nat) : Int)'
+        if (isinstance(n, ast.Call) and ast.unparse(n.func) == 'len' and len(n.args) == 1 and not n.keywords
+                and ast.unparse(n.args[0]) == self.files_src):
+            return '((List.length sizes : Nat) : Int)'
         return super().int_(n)
 
     def bool_(self, n):
-        if isinstance(n, ast.Name) and self.types.get(n.id) == 'Files' and self.atom(n) is None:
+        if isinstance(n, ast.Name) and self.types.get(n.id) in ('Files', 'Ints', 'FilesT') and self.atom(n) is None:
             return f'(!(List.isEmpty {n.id}))'
+        if isinstance(n, ast.Compare) and len(n.ops) == 1 and self.atom(n) is None:
+            op, l, r = n.ops[0], n.left, n.comparators[0]
+            if isinstance(op, (ast.In, ast.NotIn)):
+                # `x in xs` for a list of integers
+                if not (isinstance(r, ast.Name) and self.types.get(r.id) == 'Ints'):
+                    raise CannotTranslate(f'membership test {ast.unparse(n)}')
+                t = f'(List.contains {r.id} {self.int_(l)})'
+                return t if isinstance(op, ast.In) else f'(!{t})'
+            if isinstance(op, (ast.Eq, ast.NotEq)):
+                # `fs == [file]`, `xs != ys` : lists of files / of integers (element-wise, as Python compares lists)
+                a, b = self.list_(l), self.list_(r)
+                if a is not None or b is not None:
+                    if a is None or b is None or a[1] != b[1]:
+                        raise CannotTranslate(f'list comparison {ast.unparse(n)}')
+                    t = f'(decide ({a[0]} = {b[0]}))'
+                    return t if isinstance(op, ast.Eq) else f'(!{t})'
         return super().bool_(n)
 
 
@@ -729,20 +828,47 @@ class _LoopFn:
         self.fn = _find_func(tree, k['func'])
         self.all_names = {n.id for n in ast.walk(self.fn) if isinstance(n, ast.Name)} | \
                          {a.arg for a in ast.walk(self.fn) if isinstance(a, ast.arg)}
+        self.messages = set()                   # locals that hold a message string (opaque, see `message_guards`)
+        self.pairs = bool(k.get('pairs'))       # `files` is a list of (file, size) pairs: `for a, b in <files>`
+        self.result = k.get('result')           # `self.<attr> = <value>` is what the function computes (an __init__)
+        # list-typed arguments may be handed a tuple by the caller: `==` with a list is refused, and so are append / remove
+        self.maybe_tuple = {p for p, t in k['params'] if t in ('Ints', 'Files')}
 
     # ---- expressions -------------------------------------------------------------------------------------------
     def ex(self, env, loop):
         atoms = dict(self.atoms)
         env = dict(env)
-        if loop is not None:
+        if loop is not None and loop['var'] is not None:
             atoms[f'{loop["var"]}.size'] = loop['size']
             env[loop['size']] = 'Int'
-        return _LoopExpr(env, atoms, self.files_src)
+        fenv = dict(env)
+        return _LoopExpr(env, atoms, self.files_src, lambda n: self.fileref(n, fenv), self.maybe_tuple)
+
+    def pair_index(self, n):
+        """c if `n` is `<pairs>[c]` for an integer constant c ≥ 0, else None"""
+        if (self.pairs and isinstance(n, ast.Subscript) and ast.unparse(n.value) == self.files_src
+                and isinstance(n.slice, ast.Constant) and isinstance(n.slice.value, int)
+                and not isinstance(n.slice.value, bool) and n.slice.value >= 0):
+            return n.slice.value
+        return None
+
+    def pair_guards(self, n):
+        """bounds checks (Lean conditions) of the `<pairs>[c]` subscripts in `n` (IndexError otherwise)"""
+        cs = sorted({self.pair_index(m) for m in ast.walk(n)} - {None})
+        return [f'(Option.isSome (Torf.Loop.getIdx sizes ({c} : Int)))' for c in cs]
+
+    def guarded(self, conds, lines):
+        for c in reversed(conds):
+            lines = [f'if {c} then'] + self.ind(lines) + ['else', '  .raised "IndexError"']
+        return lines
 
     def fileref(self, n, env):
         """Lean term (an index) if `n` denotes a File of the torrent, else None"""
         if isinstance(n, ast.Name) and env.get(n.id) == 'File':
             return n.id
+        if (isinstance(n, ast.Subscript) and isinstance(n.slice, ast.Constant) and n.slice.value == 0
+                and not isinstance(n.slice.value, bool) and self.pair_index(n.value) is not None):
+            return f'({self.pair_index(n.value)} : Nat)'        # `<pairs>[c][0]`: needs `pair_guards`
         if isinstance(n, ast.Call) and ast.unparse(n.func) in self.wrappers:
             kw = [q for q in n.keywords if q.arg == 'file']
             if len(kw) == 1 and isinstance(kw[0].value, ast.Name) and env.get(kw[0].value.id) == 'File':
@@ -758,6 +884,10 @@ class _LoopFn:
         sig = _signature_args(_find_func(self.tree, callee['func']))
         declared = dict(callee['params'])
         given = {}
+        cargs = _find_func(self.tree, callee['func']).args
+        # an argument left to its default takes the literal written in the callee's signature (True / False / integer)
+        defaults = {a.arg: d for a, d in zip(cargs.args[len(cargs.args) - len(cargs.defaults):], cargs.defaults)
+                    if isinstance(d, ast.Constant) and isinstance(d.value, (bool, int))}
         for i, a in enumerate(n.args):
             if isinstance(a, ast.Starred) or i >= len(sig):
                 raise CannotTranslate(f'arguments of {ast.unparse(n.func)}')
@@ -769,9 +899,9 @@ class _LoopFn:
         out = []
         for p, t in callee['params']:
             if p in sig:
-                if p not in given:
-                    raise CannotTranslate(f'{ast.unparse(n.func)}: argument {p} left to its default')
-                a = given[p]
+                if p not in given and p not in defaults:
+                    raise CannotTranslate(f'{ast.unparse(n.func)}: argument {p} left to a default that is not a literal')
+                a = given[p] if p in given else defaults[p]
                 if t == 'Int':
                     out.append(self.ex(env, loop).int_(a))
                 elif t == 'Bool':
@@ -781,6 +911,10 @@ class _LoopFn:
                     if r is None:
                         raise CannotTranslate(f'{ast.unparse(a)} is not a file')
                     out.append(r)
+                elif t == 'Ints':
+                    if not (isinstance(a, ast.Name) and env.get(a.id) == 'Ints'):
+                        raise CannotTranslate(f'{ast.unparse(a)} is not a list of integers')
+                    out.append(a.id)
                 else:
                     raise CannotTranslate(f'argument type {t}')
             else:                       # a parameter that stands for an attribute of the object (atoms): same name here
@@ -808,6 +942,92 @@ class _LoopFn:
         env[name] = typ
         return env
 
+    def listval(self, v, env, loop):
+        """(Lean term, type, bounds checks) if `v` builds a list / tuple of files or a list of integers, else None"""
+        if isinstance(v, ast.List) and not v.elts:
+            return '[]', None, []                  # element type fixed by the first use (Files unless bound otherwise)
+        if isinstance(v, (ast.List, ast.Tuple)) and v.elts:
+            refs = [self.fileref(e, env) for e in v.elts]
+            if all(r is not None for r in refs):
+                # a tuple of files is typed `FilesT`: no append / remove / comparison with a list on it
+                return '[' + ', '.join(refs) + ']', ('FilesT' if isinstance(v, ast.Tuple) else 'Files'), self.pair_guards(v)
+            if isinstance(v, ast.Tuple):
+                raise CannotTranslate(f'tuple of integers {ast.unparse(v)}')
+            if not any(r is not None for r in refs):
+                e = self.ex(env, loop)
+                return '[' + ', '.join(e.int_(x) for x in v.elts) + ']', 'Ints', []
+            raise CannotTranslate(f'mixed display {ast.unparse(v)}')
+        if isinstance(v, ast.Call) and not v.keywords and isinstance(v.func, ast.Name):
+            f, a = v.func.id, v.args
+            if f in ('list', 'tuple') and len(a) == 1:
+                if isinstance(a[0], ast.Name) and env.get(a[0].id) in ('Files', 'FilesT'):
+                    return a[0].id, ('FilesT' if f == 'tuple' else 'Files'), []       # a copy: same elements
+                if f == 'list' and isinstance(a[0], ast.Name) and env.get(a[0].id) == 'Ints':
+                    return a[0].id, 'Ints', []
+                if f == 'list' and isinstance(a[0], ast.Call) and ast.unparse(a[0].func) == 'range' \
+                        and not a[0].keywords and len(a[0].args) in (1, 2):
+                    e = self.ex(env, loop)
+                    lo = e.int_(a[0].args[0]) if len(a[0].args) == 2 else '(0 : Int)'
+                    return f'(Torf.Loop.pyRange {lo} {e.int_(a[0].args[-1])})', 'Ints', []
+            if f == 'sorted' and len(a) == 1 and isinstance(a[0], ast.Name) and env.get(a[0].id) == 'IntSet':
+                return f'(Torf.Loop.sortedSet {a[0].id})', 'Ints', []
+        return None
+
+    def message_guards(self, v, env):
+        """None unless `v` is a *message expression*: an f-string / string constant / `+` of such (or of a name that
+        holds one).  Its value is not translated (the name it is assigned to becomes opaque); what is translated are
+        the bounds checks of the subscripts `xs[c]` in its holes.  Everything in it must be on the white list below
+        (names, constants, + - *, str() / repr(), '<sep>'.join(<generator over a list local>), xs[c]) so that
+        evaluating it has no effect and raises nothing but those IndexErrors (trusted: str() of a value does not raise)."""
+        leaves, todo = [], [v]
+        while todo:
+            x = todo.pop()
+            if isinstance(x, ast.BinOp) and isinstance(x.op, ast.Add):
+                todo += [x.right, x.left]
+            else:
+                leaves.append(x)
+        def is_str(x):
+            return isinstance(x, ast.JoinedStr) or (isinstance(x, ast.Constant) and isinstance(x.value, str)) or \
+                (isinstance(x, ast.Name) and env.get(x.id) == 'Opaque' and x.id in self.messages)
+        if not any(is_str(x) for x in leaves):
+            return None
+        local, guards = set(), []
+        for n in ast.walk(v):
+            if isinstance(n, ast.comprehension):
+                if n.ifs or n.is_async or not isinstance(n.target, ast.Name) or not (
+                        isinstance(n.iter, ast.Name) and env.get(n.iter.id) in ('Files', 'Ints', 'FilesT')):
+                    raise CannotTranslate(f'generator in a message: {ast.unparse(v)[:60]}')
+                local.add(n.target.id)
+        for n in ast.walk(v):
+            if isinstance(n, (ast.JoinedStr, ast.FormattedValue, ast.GeneratorExp, ast.comprehension, ast.expr_context,
+                              ast.Add, ast.Sub, ast.Mult, ast.USub)):
+                continue
+            if isinstance(n, ast.Constant) and isinstance(n.value, (str, int, type(None))):
+                continue
+            if isinstance(n, ast.BinOp) and isinstance(n.op, (ast.Add, ast.Sub, ast.Mult)):
+                continue
+            if isinstance(n, ast.UnaryOp) and isinstance(n.op, ast.USub):
+                continue
+            if isinstance(n, ast.Name):
+                if n.id in local or n.id in env or n.id in ('str', 'repr'):
+                    continue
+                raise CannotTranslate(f'name {n.id} in a message is not bound')
+            if isinstance(n, ast.Call) and not n.keywords and len(n.args) == 1:
+                if isinstance(n.func, ast.Name) and n.func.id in ('str', 'repr'):
+                    continue
+                if (isinstance(n.func, ast.Attribute) and n.func.attr == 'join' and isinstance(n.func.value, ast.Constant)
+                        and isinstance(n.func.value.value, str) and isinstance(n.args[0], ast.GeneratorExp)):
+                    continue
+            if isinstance(n, ast.Attribute) and n.attr == 'join' and isinstance(n.value, ast.Constant):
+                continue
+            if (isinstance(n, ast.Subscript) and isinstance(n.value, ast.Name)
+                    and env.get(n.value.id) in ('Files', 'Ints', 'FilesT') and isinstance(n.slice, ast.Constant) and isinstance(n.slice.value, int)
+                    and not isinstance(n.slice.value, bool)):
+                guards.append(f'(Option.isSome (Torf.Loop.getIdx {n.value.id} (({n.slice.value}) : Int)))')
+                continue
+            raise CannotTranslate(f'in a message: {ast.unparse(n)[:60]}')
+        return guards
+
     def ret_term(self, v, env, loop):
         if v is None:
             raise CannotTranslate('return without a value')
@@ -821,12 +1041,13 @@ class _LoopFn:
             if r is None:
                 raise CannotTranslate(f'return value {ast.unparse(v)} is not a file')
             return f'.ret {r}'
-        if self.ret == 'Files':
-            if isinstance(v, ast.Name) and env.get(v.id) == 'Files':
+        if self.ret in ('Files', 'Ints'):
+            if isinstance(v, ast.Name) and env.get(v.id) == self.ret:
                 return f'.ret {v.id}'
-            if isinstance(v, ast.List) and not v.elts:
-                return '.ret []'
-            raise CannotTranslate(f'return value {ast.unparse(v)} is not a list of files')
+            lv = self.listval(v, env, loop)
+            if lv is not None and (lv[1] in (None, self.ret) or (self.ret, lv[1]) == ('Files', 'FilesT')):
+                return '\n'.join(self.guarded(lv[2], [f'.ret {lv[0]}']))
+            raise CannotTranslate(f'return value {ast.unparse(v)} is not a list of {"files" if self.ret == "Files" else "integers"}')
         if self.ret == 'Int':
             return f'.ret {self.ex(env, loop).int_(v)}'
         if self.ret == 'Bool':
@@ -849,6 +1070,19 @@ class _LoopFn:
 
         if isinstance(s, ast.Pass) or (isinstance(s, ast.Expr) and isinstance(s.value, ast.Constant)):
             return cont(env)
+        if (isinstance(s, ast.Assign) and len(s.targets) == 1 and isinstance(s.targets[0], ast.Attribute)
+                and isinstance(s.targets[0].value, ast.Name) and s.targets[0].value.id == 'self'):
+            tgt = ast.unparse(s.targets[0])
+            if self.result is not None and tgt == self.result:
+                # the value the function computes: what follows the store is not translated (the attribute is stored
+                # once, checked in `translate`)
+                return self.ret_term(s.value, env, loop).split('\n')
+            loads = [n for n in ast.walk(self.fn) if isinstance(n, ast.Attribute) and isinstance(n.ctx, ast.Load)
+                     and ast.unparse(n) == tgt]
+            if self.result is not None and not loads and isinstance(s.value, (ast.Name, ast.Constant)) and (
+                    not isinstance(s.value, ast.Name) or s.value.id in env):
+                return cont(env)          # `self._x = <name>`: stored and never read here — not part of the result
+            raise CannotTranslate(f'attribute store {tgt}')
         if isinstance(s, ast.AugAssign):
             if not isinstance(s.target, ast.Name):
                 raise CannotTranslate(f'target {ast.unparse(s.target)}')
@@ -860,11 +1094,36 @@ class _LoopFn:
             x, v = s.targets[0].id, s.value
             if isinstance(v, ast.Call) and ast.unparse(v.func) in self.calls:
                 term, typ = self.call(v, env, loop)
-                if typ not in ('Int', 'Bool', 'File', 'Files'):
+                if typ not in ('Int', 'Bool', 'File', 'Files', 'Ints'):
                     raise CannotTranslate(f'result of type {typ} stored in a variable')
                 e2 = self.bind(env, x, typ)
                 return [f'Torf.Loop.Out.bind {term} (fun ({x} : {_LOOP_LEAN_TYPES[typ]}) =>'] + \
                     self.ind(self._close(cont(e2)))
+            mg = self.message_guards(v, env)
+            if mg is not None:
+                if env.get(x, 'Opaque') != 'Opaque' or x in self.k.get('ignore', ()) or loop is not None:
+                    raise CannotTranslate(f'message assigned to {x}')
+                self.messages.add(_loop_ident(x))
+                e2 = dict(env)
+                e2[x] = 'Opaque'
+                return self.guarded(mg, cont(e2))
+            if isinstance(v, ast.Call) and ast.unparse(v.func) == 'set' and not v.args and not v.keywords:
+                # a set that is only added to and finally sorted: the added values in insertion order
+                e2 = self.bind(env, x, 'IntSet')
+                return [f'let {x} : List Int := []'] + cont(e2)
+            if (isinstance(v, ast.Subscript) and isinstance(v.value, ast.Name) and env.get(v.value.id) == 'Ints'
+                    and not isinstance(v.slice, (ast.Slice, ast.Tuple))):
+                # x = xs[i] : IndexError if there is no such element
+                idx = self.ex(env, loop).int_(v.slice)
+                e2 = self.bind(env, x, 'Int')
+                return [f'Torf.Loop.Out.bind (Torf.Loop.Out.ofOption (Torf.Loop.getIdx {v.value.id} {idx}) "IndexError") '
+                        f'(fun ({x} : Int) =>'] + self.ind(self._close(cont(e2)))
+            lv = self.listval(v, env, loop)
+            if lv is not None:
+                term, typ, guards = lv
+                typ = typ or 'Files'
+                e2 = self.bind(env, x, typ)
+                return self.guarded(guards, [f'let {x} : {_LOOP_LEAN_TYPES[typ]} := {term}'] + cont(e2))
             if isinstance(v, ast.List) and not v.elts:
                 typ, term = 'Files', '[]'
             elif self.fileref(v, env) is not None:
@@ -886,6 +1145,15 @@ class _LoopFn:
                     raise CannotTranslate(f'appended value {ast.unparse(c.args[0])} is not a file')
                 x = c.func.value.id
                 return [f'let {x} : List Nat := {x} ++ [{r}]'] + cont(env)
+            if (isinstance(c.func, ast.Attribute) and isinstance(c.func.value, ast.Name) and len(c.args) == 1
+                    and not c.keywords and c.func.value.id not in self.maybe_tuple
+                    and (env.get(c.func.value.id), c.func.attr) in
+                    (('Ints', 'append'), ('Ints', 'remove'), ('IntSet', 'add'))):
+                x, v = c.func.value.id, self.ex(env, loop).int_(c.args[0])
+                if c.func.attr == 'remove':       # removes the first occurrence; ValueError if there is none
+                    return [f'if (List.contains {x} {v}) then', f'  let {x} : List Int := List.erase {x} {v}'] + \
+                        self.ind(cont(env)) + ['else', '  .raised "ValueError"']
+                return [f'let {x} : List Int := {x} ++ [{v}]'] + cont(env)
             raise CannotTranslate(f'call statement {ast.unparse(c)[:60]}')
         if isinstance(s, ast.If):
             test = self.ex(env, loop).bool_(s.test)
@@ -895,7 +1163,7 @@ class _LoopFn:
             test = self.ex(env, loop).bool_(s.test)
             return [f'if {test} then'] + self.ind(cont(env)) + ['else', '  .raised "AssertionError"']
         if isinstance(s, ast.Return):
-            return [self.ret_term(s.value, env, loop)]
+            return self.ret_term(s.value, env, loop).split('\n')
         if isinstance(s, ast.Raise):
             e = s.exc.func if isinstance(s.exc, ast.Call) else s.exc
             if isinstance(e, ast.Attribute):
@@ -952,14 +1220,27 @@ class _LoopFn:
         if loop is not None or self.loops:
             raise CannotTranslate('more than one loop')
         self.loops += 1
-        if s.orelse or not isinstance(s.target, ast.Name) or ast.unparse(s.iter) != self.files_src:
+        if not s.orelse and isinstance(s.target, ast.Name) and isinstance(s.iter, ast.Name) \
+                and env.get(s.iter.id) == 'Ints':
+            return self.for_ints(s, env, cont)
+        pair = (self.pairs and isinstance(s.target, ast.Tuple) and len(s.target.elts) == 2
+                and all(isinstance(e, ast.Name) for e in s.target.elts))
+        if s.orelse or not (pair or (isinstance(s.target, ast.Name) and not self.pairs)) \
+                or ast.unparse(s.iter) != self.files_src:
             raise CannotTranslate(f'loop header: for {ast.unparse(s.target)} in {ast.unparse(s.iter)}')
-        var = _loop_ident(s.target.id)
-        size, restn = f'{var}_size', f'{var}_rest'
-        if var in env or {size, restn} & (self.all_names | set(env)):
+        if pair:
+            # `for a, b in <pairs>`: a is the file (the index of the pair), b its size
+            var, size = _loop_ident(s.target.elts[0].id), _loop_ident(s.target.elts[1].id)
+            restn = f'{size}_rest'
+            clash = var == size or env.get(size, 'Opaque') != 'Opaque' or restn in (self.all_names | set(env))
+        else:
+            var = _loop_ident(s.target.id)
+            size, restn = f'{var}_size', f'{var}_rest'
+            clash = bool({size, restn} & (self.all_names | set(env)))
+        if env.get(var, 'Opaque') != 'Opaque' or clash:      # an opaque name (an argument nobody reads) may be shadowed
             raise CannotTranslate(f'name clash around the loop variable {var}')
         assigned = self._assigned(s.body)
-        if var in assigned or assigned & set(self.k.get('ignore', ())):
+        if var in assigned or size in assigned or assigned & set(self.k.get('ignore', ())):
             raise CannotTranslate('loop variable or opaque argument is assigned in the loop')
         names = [n for n, t in env.items() if t != 'Opaque']
         fixed = [n for n in names if n not in assigned]
@@ -970,16 +1251,18 @@ class _LoopFn:
         typ = ' → '.join(['List Int', 'Nat'] + [lt[env[n]] for n in carried] + [f'Torf.Loop.Out ({lt[self.ret]})'])
         pre = dict(env)
 
-        def after(e):
-            return cont({n: e[n] for n in pre})
+        def after(e):         # after the loop the loop variables hold the last item, or nothing: opaque as before
+            return cont({n: (pre[n] if pre[n] == 'Opaque' else e[n]) for n in pre})
 
         def rec(e):
-            if any(e.get(n) != pre[n] for n in pre):
+            if any(e.get(n) != pre[n] for n in pre if pre[n] != 'Opaque'):
                 raise CannotTranslate('a variable changes its type in the loop')
             return [' '.join([gname] + fixed + [restn, f'({var} + 1)'] + carried)]
 
         body_env = dict(env)
         body_env[var] = 'File'
+        if pair:
+            body_env[size] = 'Int'
         lp = dict(var=var, size=size, rec=rec, after=after)
         body = self.block(s.body, body_env, rec, lp)
         lines = ['set_option linter.unusedVariables false in',
@@ -989,15 +1272,60 @@ class _LoopFn:
         self.aux.append('\n'.join(lines))
         return [' '.join([gname] + fixed + ['sizes', '0'] + carried)]
 
+    def for_ints(self, s, env, cont):
+        """`for x in xs:` over a list of integers `xs` (an argument or a local): `<name>.loop <unchanged locals> :
+        List Int → <assigned locals…> → Out _` by recursion on the list; `x` is a plain local of the iteration (it may
+        be re-assigned in the body)."""
+        lst, var = s.iter.id, _loop_ident(s.target.id)
+        restn = f'{var}_rest'
+        if var in env or restn in (self.all_names | set(env)):
+            raise CannotTranslate(f'name clash around the loop variable {var}')
+        assigned = self._assigned(s.body)
+        if lst in assigned or assigned & set(self.k.get('ignore', ())):
+            raise CannotTranslate('the list iterated over or an opaque argument is assigned in the loop')
+        names = sorted(n for n, t in env.items() if t != 'Opaque')     # alphabetical: the signature of the loop does not
+        fixed = [n for n in names if n not in assigned]                # depend on the order of the assignments before it
+        carried = [n for n in names if n in assigned]
+        gname = f'{self.name}.loop'
+        lt = _LOOP_LEAN_TYPES
+        sig = ' '.join(f'({n} : {lt[env[n]]})' for n in fixed)
+        typ = ' → '.join(['List Int'] + [lt[env[n]] for n in carried] + [f'Torf.Loop.Out ({lt[self.ret]})'])
+        pre = dict(env)
+
+        def after(e):
+            return cont({n: (pre[n] if pre[n] == 'Opaque' else e[n]) for n in pre})
+
+        def rec(e):
+            if any(e.get(n) != pre[n] for n in pre if pre[n] != 'Opaque'):
+                raise CannotTranslate('a variable changes its type in the loop')
+            return [' '.join([gname] + fixed + [restn] + carried)]
+
+        body_env = dict(env)
+        body_env[var] = 'Int'
+        body = self.block(s.body, body_env, rec, dict(var=None, size=None, rec=rec, after=after))
+        lines = ['set_option linter.unusedVariables false in',
+                 f'def {gname}{" " if sig else ""}{sig} : {typ}',
+                 '  | ' + ', '.join(['[]'] + carried) + ' =>'] + self.ind(after(pre), 2) + \
+                ['  | ' + ', '.join([f'{var} :: {restn}'] + carried) + ' =>'] + self.ind(body, 2)
+        self.aux.append('\n'.join(lines))
+        return [' '.join([gname] + fixed + [lst] + carried)]
+
     def translate(self):
         sig = _signature_args(self.fn)
         declared = [p for p, _ in self.k['params']]
         env = {}
         for p, t in self.k['params']:
-            if t not in ('Int', 'Bool', 'File'):
+            if t not in ('Int', 'Bool', 'File', 'Ints'):
                 raise CannotTranslate(f'parameter type {t}')
             env[_loop_ident(p)] = t
+        if self.result is not None:
+            stores = [n for n in ast.walk(self.fn) if isinstance(n, ast.Attribute) and isinstance(n.ctx, (ast.Store, ast.Del))
+                      and ast.unparse(n) == self.result]
+            if len(stores) != 1:
+                raise CannotTranslate(f'{len(stores)} stores to {self.result}')
         for a in sig:
+            if self.pairs and a == self.files_src:
+                continue                  # the list of (file, size) pairs is `sizes`
             if a not in declared:
                 if a not in self.k.get('ignore', ()):
                     raise CannotTranslate(f'argument {a} of the function is not declared')
